@@ -424,7 +424,7 @@ func (fg *FunctionGenerator) GenerateCustom(ast parser2.AST, gc funcGen.Generato
 		}
 		l := tc.GetLine()
 		return func(st funcGen.Stack[Value], cs []Value) (Value, error) {
-			tryVal, tryErr := tryFunc(st, cs)
+			tryVal, tryErr := callAndRecover(tryFunc, st, cs)
 			if tryErr == nil {
 				return tryVal, nil
 			}
@@ -508,6 +508,18 @@ func (fg *FunctionGenerator) GenerateCustom(ast parser2.AST, gc funcGen.Generato
 		}
 	}
 	return nil, false, nil
+}
+
+// callAndRecover calls the given function and converts a panic to an error,
+// which allows try/catch to handle faults that are raised as a panic.
+func callAndRecover(f funcGen.ParserFunc[Value], st funcGen.Stack[Value], cs []Value) (v Value, err error) {
+	defer func() {
+		if rec := recover(); rec != nil {
+			v = nil
+			err = parser2.AnyToError(rec)
+		}
+	}()
+	return f(st, cs)
 }
 
 func simpleOnlyFloatFunc(name string, f func(float64) float64) funcGen.Function[Value] {
